@@ -724,6 +724,74 @@ def _bnot(e, c, a): return e.not_(a[0]) if isinstance(a[0], bool) or (is_sym(a[0
 @model('mem::size_of')
 def _size_of(e, c, a): return 8
 
+# ---------------------------------------------------------------- strings (concrete content)
+def pystr(x):
+    x = unguard(x)
+    if isinstance(x, StrBuf): x = x.s
+    if isinstance(x, int): return chr(x)
+    if not isinstance(x, str): raise Unsupported('string operation on non-concrete string %r' % (x,))
+    return x
+@model('str::replace', 'String::replace')
+def _s_replace(e, c, a): return StrBuf(pystr(a[0]).replace(pystr(a[1]), pystr(a[2])))
+@model('str::replacen')
+def _s_replacen(e, c, a): return StrBuf(pystr(a[0]).replace(pystr(a[1]), pystr(a[2]), e.concretize(a[3])))
+@model('str::contains', 'String::contains')
+def _s_contains(e, c, a):
+    if callable(unguard(a[1])) or isinstance(unguard(a[1]), (Closure, FnRef)): return any(e.branch(e.call_value(a[1], [ord(ch)])) for ch in pystr(a[0]))
+    return pystr(a[1]) in pystr(a[0])
+@model('str::find')
+def _s_find(e, c, a):
+    i = pystr(a[0]).find(pystr(a[1])); return Some(len(pystr(a[0])[:i].encode())) if i >= 0 else NONE()
+@model('str::ends_with')
+def _s_ends_with(e, c, a): return pystr(a[0]).endswith(pystr(a[1]))
+@model('str::trim', 'str::trim_end', 'str::trim_matches')
+def _s_trim(e, c, a):
+    s_ = pystr(a[0])
+    return s_.strip() if c.endswith('trim') or '::trim::' in c else s_.rstrip() if 'trim_end' in c else s_.strip(pystr(a[1]))
+@model('str::to_lowercase', 'str::to_ascii_lowercase')
+def _s_lower(e, c, a): return StrBuf(pystr(a[0]).lower())
+@model('str::to_uppercase', 'str::to_ascii_uppercase')
+def _s_upper(e, c, a): return StrBuf(pystr(a[0]).upper())
+@model('str::split')
+def _s_split(e, c, a): return it_list(pystr(a[0]).split(pystr(a[1])))
+@model('str::chars')
+def _s_chars(e, c, a): return it_list([ord(ch) for ch in pystr(a[0])])
+@model('str::bytes')
+def _s_bytes(e, c, a): return it_list(list(pystr(a[0]).encode()))
+@model('str::char_indices')
+def _s_char_indices(e, c, a):
+    s_ = pystr(a[0]); out = []; off = 0
+    for ch in s_:
+        out.append(Struct([off, ord(ch)])); off += len(ch.encode())
+    return it_list(out)
+@model('String::push_str')
+def _push_str(e, c, a):
+    b = unguard(a[0]); b.s = pystr(b) + pystr(a[1]); return UNIT
+@model('String::push')
+def _push_ch(e, c, a):
+    b = unguard(a[0]); b.s = pystr(b) + chr(e.concretize(a[1])); return UNIT
+@model('String::is_empty')
+def _string_is_empty(e, c, a): return len(pystr(a[0])) == 0
+@model('String::clear')
+def _string_clear(e, c, a): unguard(a[0]).s = ''; return UNIT
+@model('String::with_capacity')
+def _string_cap(e, c, a): return StrBuf('')
+@model('String::into_bytes')
+def _into_bytes(e, c, a): return VecObj(list(pystr(a[0]).encode()))
+@model('char::is_alphanumeric', 'char::is_ascii_alphanumeric')
+def _c_alnum(e, c, a): return chr(e.concretize(a[0] if not isinstance(a[0], Ref) else a[0].get())).isalnum()
+@model('char::is_ascii_digit', 'char::is_numeric')
+def _c_digit(e, c, a): return chr(e.concretize(a[0] if not isinstance(a[0], Ref) else a[0].get())).isdigit()
+@model('char::is_whitespace', 'char::is_ascii_whitespace')
+def _c_space(e, c, a): return chr(e.concretize(a[0] if not isinstance(a[0], Ref) else a[0].get())).isspace()
+@model('slice::chunk_by')
+def _chunk_by(e, c, a):
+    s_ = as_slice(e, a[0]); groups = []; start = 0
+    for i in range(1, s_.n + 1):
+        if i == s_.n or not e.branch(e.call_value(a[1], [Ref(s_.items, s_.start + i - 1), Ref(s_.items, s_.start + i)])):
+            groups.append(SliceRef(s_.items, s_.start + start, i - start)); start = i
+    return it_list(groups if s_.n else [])
+
 # ---------------------------------------------------------------- misc
 @model('RefCell::into_inner', 'RefCell::get_mut', 'Cell::get')
 def _into_inner(e, c, a):
